@@ -1562,17 +1562,39 @@ func (ge *guardEnv) predicateEnsuresIdx(call ssa.CallInstruction, h *ssa.Functio
 // address taken) is followed to the value stored last in the returning block, if there is one.
 func resultValueAt(ret *ssa.Return, idx int) ssa.Value {
 	v := ret.Results[idx]
-	if u, ok := v.(*ssa.UnOp); ok && u.Op == token.MUL {
-		if al, ok := u.X.(*ssa.Alloc); ok {
-			var last ssa.Value
-			for _, in := range ret.Block().Instrs {
-				if st, ok := in.(*ssa.Store); ok && st.Addr == ssa.Value(al) {
-					last = st.Val
-				}
+	for i := 0; i < 4; i++ {
+		nv := slotValueBefore(v, ret.Block())
+		if nv == v {
+			break
+		}
+		v = nv
+	}
+	return v
+}
+
+// slotValueBefore: for a load of a local slot, the value stored last in blk, else in the nearest dominating
+// block that stores into the slot; anything else is returned unchanged.
+func slotValueBefore(v ssa.Value, blk *ssa.BasicBlock) ssa.Value {
+	u, ok := v.(*ssa.UnOp)
+	if !ok || u.Op != token.MUL {
+		return v
+	}
+	al, ok := u.X.(*ssa.Alloc)
+	if !ok {
+		return v
+	}
+	for d := blk; d != nil; d = d.Idom() {
+		var last ssa.Value
+		for _, in := range d.Instrs {
+			if in == ssa.Instruction(u) && d == u.Block() {
+				break
 			}
-			if last != nil {
-				return last
+			if st, ok := in.(*ssa.Store); ok && st.Addr == ssa.Value(al) {
+				last = st.Val
 			}
+		}
+		if last != nil && last != v {
+			return last
 		}
 	}
 	return v
